@@ -27,6 +27,13 @@ class Grammar(qc.QGrammar):
     def targets(self, P, env):
         return P.cq
 
+    def emit_submit(self, P, kind, q, b, c, bodies, env, group=0):
+        o = qc.QGrammar.emit_submit(self, P, kind, q, b, c, bodies, env, group)
+        if o is not None and o.kind in ("basync", "bsync", "baaw") and (b >> 5) % 3 == 0:
+            o.b |= 2         # the barrier is a property of the block object (DISPATCH_BLOCK_BARRIER) handed to the plain dispatch_async/sync/async_and_wait
+            P.features.add("barrier-from-block-object")
+        return o
+
     def emit_other(self, P, kind, a, b, c, bodies, env):
         if kind == "apply":
             if env.in_item:
@@ -43,7 +50,7 @@ class Grammar(qc.QGrammar):
 class Check(E3Check):
     prop = "C04"
     rule = ("Hypothesis recipe -> sound program on one or two DISPATCH_QUEUE_CONCURRENT queues (targeting the default root, created with a global target, or "
-            "width-limited via dispatch_queue_set_width): 1-4 threads submit readers and barriers with async/sync/async_and_wait in block and _f form, dispatch_apply, "
+            "width-limited via dispatch_queue_set_width): 1-4 threads submit readers and barriers with async/sync/async_and_wait in block and _f form (a third of the barriers are block objects created with DISPATCH_BLOCK_BARRIER and handed to the plain, non-barrier API), dispatch_apply, "
             "awaits, nested submissions, suspend/resume; item bodies have varied length so width is returned at varied moments. Oracles (one-sided stamps): a barrier "
             "item overlaps no other item of its queue (apply invocations count as readers); everything whose submission returned before the barrier was submitted "
             "finishes before it starts; everything submitted after the barrier's submission returned starts after it finishes. Non-trivial: a barrier was submitted "
